@@ -272,6 +272,22 @@ where
             let lam = G::Base::from_j(&elem(r, g));
             ops.push(json!({"op": "iso", "g": g, "p": proj_to_j(&rescale(&p, &lam)), "cls": "rescaled"}));
         }
+        if i % 6 == 2 {
+            // representatives with a special Z: -1 (Z^2 = 1), 2, -2, on the normalized point
+            let a = p.into_affine().into_projective();
+            let mut m1 = G::Base::one();
+            m1.negate();
+            let mut two = G::Base::one();
+            two.double();
+            let mut m2 = two;
+            m2.negate();
+            for (lam, cls) in [(m1, "Z=-1"), (two, "Z=2"), (m2, "Z=-2")].iter() {
+                ops.push(json!({"op": "iso", "g": g, "p": proj_to_j(&rescale(&a, lam)), "cls": cls}));
+            }
+            let mut n = a;
+            n.negate();
+            ops.push(json!({"op": "iso", "g": g, "p": proj_to_j(&rescale(&n, &m1)), "cls": "negative-Z=-1"}));
+        }
         if i % 3 == 1 {
             // the normalized representative (X/Z^2, Y/Z^3, 1) of the same point
             let a = p.into_affine();
@@ -327,6 +343,13 @@ where
             _ => (full_order_point::<G>(r).into_projective(), "full-order"),
         };
         ops.push(json!({"op": "clearh", "g": g, "p": proj_to_j(&p), "cls": cls}));
+        if i % 10 == 3 {
+            let mut m1 = G::Base::one();
+            m1.negate();
+            let a = p.into_affine().into_projective();
+            ops.push(json!({"op": "clearh", "g": g, "p": proj_to_j(&rescale(&a, &m1)), "cls": "Z=-1"}));
+            ops.push(json!({"op": "clearh", "g": g, "p": proj_to_j(&a), "cls": "Z=1"}));
+        }
         chunk(sessions, &mut ops, per);
     }
     let zero = G::Base::zero();
